@@ -1375,6 +1375,8 @@ Proof.
   assert (Fa : a_infile a = true) by (rewrite <- F1, <- T1; exact F).
   rewrite label_is_assign_bump by exact F.
   simpl step_ann. rewrite T2, Fa. rewrite E2 in I1. rewrite E2. simpl tl.
-  eexists. apply bump_inv; auto.
-  intros k R. apply H9. unfold rL in *. rewrite NL in R. exact R.
+  eexists. apply bump_inv.
+  - exact I1.
+  - exact Fa.
+  - intros k R. apply H9. unfold rL in *. rewrite NL in R. exact R.
 Qed.
